@@ -65,6 +65,7 @@ Proof.
   apply check_acc in H. destruct H as [_ H].
   destruct (timer_at x k) as [t|] eqn:Et; [|discriminate].
   apply check_acc in H. destruct H as [_ H].
+  apply check_acc in H. destruct H as [_ H].
   destruct (t_st t); try discriminate.
   apply check_acc in H. destruct H as [_ H].
   assert (Hu : negb (upgradable x) || negb (a_rx x) = false).
